@@ -510,12 +510,13 @@ End SS.
 Module EV.
 Open Scope N_scope.
 
-(* events are numbered in creation order; handle None = the package-level pre-triggered evictedSlotEvent *)
-Record st := mk { last : option N; evs : list (N * nat); trig : list bool; handles : list (N * option nat) }.
+(* events are numbered in creation order; handle None = the package-level pre-triggered evictedSlotEvent;
+   evs = the map evictionEvents (slot -> event), tr = the events that were triggered *)
+Record st := mk { last : option N; evs : list (N * nat); nev : nat; tr : list nat; handles : list (N * option nat) }.
 
 Inductive op := OEvent (slot : N) | OEvict (slot : N).
 
-Definition init : st := mk None [] [] [].
+Definition init : st := mk None [] 0 [] [].
 
 Fixpoint lookup (slot : N) (m : list (N * nat)) : option nat :=
   match m with [] => None | (k, v) :: r => if k =? slot then Some v else lookup slot r end.
@@ -523,30 +524,28 @@ Fixpoint lookup (slot : N) (m : list (N * nat)) : option nat :=
 Definition after_last (l : option N) (slot : N) : bool :=
   match l with None => true | Some x => x <? slot end.
 
-Fixpoint set_true (ids : list nat) (t : list bool) : list bool :=
-  match ids with [] => t | i :: r => set_true r (firstn i t ++ match skipn i t with [] => [] | _ :: q => true :: q end) end.
+Definition in_range (start slot : N) (kv : N * nat) : bool := (start <=? fst kv) && (fst kv <=? slot).
 
 Definition step (s : st) (o : op) : st :=
   match o with
   | OEvent slot =>
       if after_last (last s) slot then
         match lookup slot (evs s) with
-        | Some id => mk (last s) (evs s) (trig s) (handles s ++ [(slot, Some id)])
-        | None => let id := length (trig s) in
-                  mk (last s) (evs s ++ [(slot, id)]) (trig s ++ [false]) (handles s ++ [(slot, Some id)])
+        | Some id => mk (last s) (evs s) (nev s) (tr s) (handles s ++ [(slot, Some id)])
+        | None => mk (last s) (evs s ++ [(slot, nev s)]) (S (nev s)) (tr s) (handles s ++ [(slot, Some (nev s))])
         end
-      else mk (last s) (evs s) (trig s) (handles s ++ [(slot, None)])
+      else mk (last s) (evs s) (nev s) (tr s) (handles s ++ [(slot, None)])
   | OEvict slot =>
       if after_last (last s) slot then
+        (* for i := lastEvicted+1 (or 0); i <= slot; i++: trigger and delete the stored event of slot i *)
         let start := match last s with None => 0 | Some x => x + 1 end in
-        let hit := filter (fun kv => (start <=? fst kv) && (fst kv <=? slot)) (evs s) in
-        let keep := filter (fun kv => negb ((start <=? fst kv) && (fst kv <=? slot))) (evs s) in
-        mk (Some slot) keep (set_true (map snd hit) (trig s)) (handles s)
+        mk (Some slot) (filter (fun kv => negb (in_range start slot kv)) (evs s)) (nev s)
+           (map snd (filter (in_range start slot) (evs s)) ++ tr s) (handles s)
       else s
   end.
 
 Definition triggered (s : st) (h : option nat) : bool :=
-  match h with None => true | Some id => nth id (trig s) false end.
+  match h with None => true | Some id => existsb (Nat.eqb id) (tr s) end.
 
 Definition run (s : st) (h : list op) : st := fold_left step h s.
 Definition obs (s : st) : N * list bool :=
@@ -584,3 +583,140 @@ Definition obs (s : st) : list N * bool := (pending s, trig s).
 Fixpoint trace (s : st) (h : list op) :=
   match h with [] => [] | o :: r => let s' := step s o in obs s' :: trace s' r end.
 End WG.
+
+(* ------------------------------------------------------------------------------------------------ *)
+(* (5') WaitGroup under interleaving: every access to the atomic counter / the pending set is one step *)
+(* ------------------------------------------------------------------------------------------------ *)
+Module WGI.
+Open Scope Z_scope.
+
+Inductive call := CAdd (es : list N) | CDone (es : list N).
+(* a call in progress: the elements still to process and whether the counter decrement is still owed *)
+Inductive cur := Idle | InAdd (es : list N) (corr : bool) | InDone (es : list N) (dec : bool).
+Record thread := mkt { now : cur; rest : list call }.
+
+Record st := mk { pending : list N; counter : Z; trig : bool; threads : list thread;
+                  ever : bool;        (* ghost: an element was inserted at some time *)
+                  emptied : bool }.   (* ghost: a Done removed the last pending element at some time *)
+
+Definition init (progs : list (list call)) : st :=
+  mk [] 0 false (map (fun p => mkt Idle p) progs) false false.
+
+Fixpoint set_thread (i : nat) (t : thread) (l : list thread) : list thread :=
+  match l, i with
+  | [], _ => []
+  | _ :: r, O => t :: r
+  | x :: r, S j => x :: set_thread j t r
+  end.
+
+(* `fixed` = the code after commit 2702b2b (the correction in Add triggers when it reaches 0) *)
+Definition step (fixed : bool) (s : st) (i : nat) : st :=
+  match nth_error (threads s) i with
+  | None => s
+  | Some t =>
+      let upd p c tr t' ev em := mk p c tr (set_thread i t' (threads s)) ev em in
+      match now t with
+      | InAdd es true =>                      (* w.pendingElementsCounter.Add(-1) in Add *)
+          let c := counter s - 1 in
+          upd (pending s) c (trig s || (fixed && (c =? 0))) (mkt (InAdd es false) (rest t)) (ever s) (emptied s)
+      | InDone es true =>                     (* w.pendingElementsCounter.Add(-1) == 0 -> Trigger in Done *)
+          let c := counter s - 1 in
+          upd (pending s) c (trig s || (c =? 0)) (mkt (InDone es false) (rest t)) (ever s) (emptied s)
+      | InAdd (e :: es) false =>              (* w.pendingElements.Add(e) *)
+          if mem e (pending s)
+          then upd (pending s) (counter s) (trig s) (mkt (InAdd es true) (rest t)) (ever s) (emptied s)
+          else upd (pending s ++ [e]) (counter s) (trig s) (mkt (InAdd es false) (rest t)) true (emptied s)
+      | InDone (e :: es) false =>             (* w.pendingElements.Delete(e) *)
+          if mem e (pending s)
+          then let p := sdel e (pending s) in
+               upd p (counter s) (trig s) (mkt (InDone es true) (rest t)) (ever s)
+                   (emptied s || match p with [] => true | _ => false end)
+          else upd (pending s) (counter s) (trig s) (mkt (InDone es false) (rest t)) (ever s) (emptied s)
+      | _ =>                                  (* the call returned (or none started): start the next one *)
+          match rest t with
+          | [] => upd (pending s) (counter s) (trig s) (mkt Idle []) (ever s) (emptied s)
+          | CAdd es :: r =>                   (* w.pendingElementsCounter.Add(len(elements)) *)
+              upd (pending s) (counter s + Z.of_nat (length es)) (trig s) (mkt (InAdd es false) r) (ever s) (emptied s)
+          | CDone es :: r => upd (pending s) (counter s) (trig s) (mkt (InDone es false) r) (ever s) (emptied s)
+          end
+      end
+  end.
+
+Definition run (fixed : bool) (s : st) (sched : list nat) : st := fold_left (step fixed) sched s.
+
+Definition finished (t : thread) : bool :=
+  match now t, rest t with
+  | Idle, [] | InAdd [] false, [] | InDone [] false, [] => true
+  | _, _ => false
+  end.
+Definition quiescent (s : st) : bool := forallb finished (threads s).
+End WGI.
+
+(* ------------------------------------------------------------------------------------------------ *)
+(* (7) lock skeletons: threads are sequences of Lock / Unlock on numbered mutexes                     *)
+(* ------------------------------------------------------------------------------------------------ *)
+Module LK.
+Inductive act := Lk (l : nat) | Ul (l : nat).
+Definition prog := list act.
+
+(* a state is the vector of program counters; who holds a mutex follows from the executed prefixes *)
+Definition holds_in (p : prog) (pc : nat) (l : nat) : bool :=
+  let pre := firstn pc p in
+  Nat.ltb (length (filter (fun a => match a with Ul x => Nat.eqb x l | _ => false end) pre))
+          (length (filter (fun a => match a with Lk x => Nat.eqb x l | _ => false end) pre)).
+
+Fixpoint held (ps : list prog) (pcs : list nat) (l : nat) : bool :=
+  match ps, pcs with
+  | p :: pr, c :: cr => holds_in p c l || held pr cr l
+  | _, _ => false
+  end.
+
+Fixpoint set_pc (i : nat) (v : nat) (l : list nat) : list nat :=
+  match l, i with
+  | [], _ => []
+  | _ :: r, O => v :: r
+  | x :: r, S j => x :: set_pc j v r
+  end.
+
+(* can thread i take its next step? *)
+Definition enabled (ps : list prog) (pcs : list nat) (i : nat) : bool :=
+  match nth_error ps i, nth_error pcs i with
+  | Some p, Some c =>
+      match nth_error p c with
+      | None => false
+      | Some (Lk l) => negb (held ps pcs l)
+      | Some (Ul _) => true
+      end
+  | _, _ => false
+  end.
+Definition step (ps : list prog) (pcs : list nat) (i : nat) : list nat :=
+  if enabled ps pcs i then set_pc i (S (nth i pcs 0)) pcs else pcs.
+Definition run (ps : list prog) (pcs : list nat) (sched : list nat) : list nat := fold_left (step ps) sched pcs.
+
+Definition unfinished (ps : list prog) (pcs : list nat) (i : nat) : bool :=
+  match nth_error ps i, nth_error pcs i with
+  | Some p, Some c => Nat.ltb c (length p)
+  | _, _ => false
+  end.
+(* deadlock: somebody is not done and nobody can move *)
+Definition deadlocked (ps : list prog) (pcs : list nat) : bool :=
+  let ids := seq 0 (length ps) in
+  existsb (unfinished ps pcs) ids && negb (existsb (enabled ps pcs) ids).
+
+(* mutexes: 0 = mutex of the embedded reactive Set, 1 = sortedSet.mutex, 2 = execution lock of the weight callback of
+   element 1, 3 = update-order mutex of weight(1), 4 = update-order mutex of heaviestElement,
+   5 = update-order mutex of weight(2), 6 = execution lock of the weight callback of element 2 *)
+(* s.Delete(1) as pinned: deleteSorted unsubscribes (takes 2) while holding 1 *)
+Definition delete_pinned : prog := [Lk 0; Lk 1; Lk 2; Ul 2; Lk 4; Ul 4; Ul 1; Ul 0].
+(* s.Delete(1) after commit 3f79633: unsubscribes after releasing 1 *)
+Definition delete_fixed : prog := [Lk 0; Lk 1; Lk 4; Ul 4; Ul 1; Lk 2; Ul 2; Ul 0].
+(* weightVariable(1).Set(w): Compute takes 3, the callback's execution lock 2, the callback takes 1, updatePosition
+   sets heaviestElement (4) *)
+Definition weight1 : prog := [Lk 3; Lk 2; Lk 1; Lk 4; Ul 4; Ul 1; Ul 2; Ul 3].
+Definition weight2 : prog := [Lk 5; Lk 6; Lk 1; Lk 4; Ul 4; Ul 1; Ul 6; Ul 5].
+(* s.Add(3) : set mutex, sortedSet.mutex, initial weight callback under its own fresh execution lock (not shared) *)
+Definition add3 : prog := [Lk 0; Lk 1; Lk 4; Ul 4; Ul 1; Ul 0].
+
+Definition sys_pinned : list prog := [delete_pinned; weight1; weight2].
+Definition sys_fixed : list prog := [delete_fixed; weight1; weight2; add3].
+End LK.
